@@ -58,8 +58,13 @@ func c11Cfg(cc c11Cell) cache.Config {
 	}
 
 	cfg.DeleteExpiredAfter = 24 * time.Hour
-	if cc.DEA == "1m" {
+	if cc.DEA == "1m" || cc.DEA == "1m+sys" {
 		cfg.DeleteExpiredAfter = time.Minute
+	}
+
+	if cc.DEA == "1m+sys" {
+		cfg.SysMemSoftLimit = 1 << 62 // configured, never exceeded: "as long as no eviction limit is exceeded"
+		cfg.EvictFraction = 1         // a wrongly triggered eviction would remove everything
 	}
 
 	return cfg
@@ -70,7 +75,7 @@ func c11Cells(tier string) []Cell {
 
 	for _, b := range backendKinds {
 		for _, ttl := range []string{"5m", "unlimited"} {
-			for _, dea := range []string{"24h", "1m"} {
+			for _, dea := range []string{"24h", "1m", "1m+sys"} {
 				for first := range c11Alphabet(0) {
 					cells = append(cells, Cell{ID: c11Cell{Backend: b, TTL: ttl, DEA: dea, First: first}.id()})
 				}
